@@ -6,6 +6,9 @@ CHECKS = {
     "C01": ("P progcheck", "bounded-exhaustive enumeration of programs (compiled by the real macros through rustc) x all input databases, compared with a naive reference evaluator",
             "Families F-shape (every rule body of <= 2 clauses over unary/binary relations with every bound/free/repeated/constant/wildcard argument pattern, plus if / let / if-let / for items attached or separate, in a recursive context) and F-scc (all dependency skeletons of <= 3 rules over <= 3 derived relations up to renaming, multi-head rules); every program is run on all 4096 databases over {0,1} (F-scc: all databases with <= 4 facts) with facts in every relation, and every relation is compared with the least model computed by a naive evaluator.",
             "programs are a cut of the program space (families), domain size 2; reference evaluator and AST printer trusted", "6 C01"),
+    "C02": ("P progcheck (default schedule) + S vsched (all schedules of collision harnesses)", "differential serial vs parallel macros on bounded-exhaustive programs x inputs at the default schedule; deviation-bounded exhaustive schedule exploration of collision harnesses under vsched",
+            "Family F-par: a cut through F-scc, F-shape, F-lat, F-agg and the binary eqrel programs, each compiled with ascent!, ascent_par! and ascent_par! + #![inter_rule_parallelism]; every variant is compared with the reference model on every input of the budget while running on a one-worker rayon pool (the 0-deviation schedule).",
+            "one rayon worker in this part (no preemption, nothing stolen); units whose parallel variant rustc rejects are outside the premise 'accepted by both front ends' (counted in the evidence)", "6 C02"),
     "C03": ("P progcheck", "bounded-exhaustive enumeration of lattice programs x all input databases on the compiled real macros, compared with a naive least-fixed-point evaluator",
             "8 lattice column types (u32, Dual<u32>, bool, Option<u8>, Set<u8>, BoundedSet<2,u8>, ConstPropagation<u8>, (u8,u8)) x 7 program shapes (non-recursive, recursive through the lattice with the lattice clause first/second, ternary lattice with bound/free/wildcard key columns, two lattices feeding each other, all derivations on one key / keyless lattice, two rules improving one key + simple joins on a lattice); all inputs up to a per-program budget; every relation incl. the plain relations derived through upward-closed tests compared with the reference LFP; exactly one row per key.",
             "monotone use only (monotone step functions, upward-closed tests, verified exhaustively by the vfn self-test); Product<..> has no Hash impl and cannot be a lattice column", "6 C03"),
